@@ -330,6 +330,9 @@ class Monitor:
     def at_end(self):
         pass
 
+    def after_run(self):
+        pass
+
     def before_op(self, i, op):
         pass
 
@@ -380,7 +383,10 @@ def run_world(world, monitors):
     if trace:
         world.trace_recorder = _TraceRecorder.install()
     for h in horizons:
+        world.run_end = world.ctx.z(world.env.now) + world.zval(h)
         system.simulate(world.val(h), trace=trace, print_summary=False)
+        for m in world.monitors:
+            m.after_run()
         for m in world.monitors:
             m.before_clock_advance()
     for m in world.monitors:
@@ -1655,6 +1661,9 @@ class DispatchMon(Monitor):
                 if conds:
                     ctx.require(ctx.And(*conds), 'dispatched event is not the minimum for (time, -priority)', getattr(head.action, '__name__', '?'))
                 before = ctx.z(w.env.now)
+                # a run of duration d executes nothing that is due later than t0 + d
+                ctx.require(ctx.z(head.time) <= w.run_end, 'an event due after the end of the run was dispatched',
+                            getattr(head.action, '__name__', '?'))
             real_step()
             with ctx.notrace():
                 now = ctx.z(w.env.now)
@@ -1662,6 +1671,15 @@ class DispatchMon(Monitor):
                 ctx.require(now >= before, 'clock went backwards')
                 ctx.goal('device_event_dispatched')
         w.env.step = step
+
+    def after_run(self):
+        w, ctx = self.w, self.ctx
+        with ctx.notrace():
+            ctx.require(ctx.z(w.env.now) == w.run_end, 'the run did not end with the clock at t0 + d')
+            for e in w.env._events:
+                ctx.require(ctx.Or(ctx.z(e.time) > w.run_end, bool(e.cancelled)), 'a live event due within the run was left unexecuted')
+            if any(not e.cancelled for e in w.env._events):
+                ctx.goal('run_ended_with_events_pending')
 
 
 MONITORS.update({'batch': BatchMon, 'routing': RoutingMon, 'dispatch': DispatchMon})
